@@ -207,7 +207,8 @@ def relocation_case(args) -> dict:
         from sedpack.io import Dataset
         from sedpack.io.dataset_filler import DatasetFiller
         src = box / "orig" / "ds"
-        ds_ = D.create(src, fmt=fmt, eps=2)
+        fmt, hashes, _ = opseq.split_fmt(fmt)
+        ds_ = D.create(src, fmt=fmt, eps=2, hashes=hashes)
         ref = {}
         sessions = []
         opseq.do_session(ds_, 0, "root", "mix", 2, ref, sessions)
@@ -219,7 +220,8 @@ def relocation_case(args) -> dict:
             shutil.copytree(src, dst)
         else:
             shutil.move(str(src), str(dst))
-        desc = f"{fmt} {how} to {target_name!r} opened by {open_by}"
+        desc = (f"{fmt} hashes={list(hashes)} {how} to {target_name!r} "
+                f"opened by {open_by}")
         try:
             if open_by == "absolute":
                 moved = Dataset(dst)
@@ -243,10 +245,38 @@ def relocation_case(args) -> dict:
                                    f"{before}", list(args)))
             opseq.do_session(moved, 2, "x", "test", 2, ref, sessions)
             opseq.do_session(moved, 3, "root", "train", 2, ref, sessions)
-            bad, _ = opseq.inspect(dst, moved, ref, 2, fmt)
+            bad, _ = opseq.inspect(dst, moved, ref, 2, fmt, hashes)
             for prop, sym, msg in bad:
                 out["bad"].append((sym, f"{desc}: after two further "
                                    f"sessions: {msg}", list(args)))
+            if how == "move-back":
+                # the directory returns to where this process has already
+                # read it (with fewer sessions in it)
+                del moved
+                shutil.move(str(dst), str(src))
+                back = Dataset(src)
+                back.check(show_progressbar=False)
+                bad, _ = opseq.inspect(src, back, ref, 2, fmt, hashes)
+                for prop, sym, msg in bad:
+                    out["bad"].append((sym, f"{desc}: moved back to the "
+                                       f"original place: {msg}", list(args)))
+            if how == "move-replace":
+                # another dataset takes the place this process has read
+                other = box / "other-ds"
+                ods = D.create(other, fmt=fmt, eps=2, hashes=hashes)
+                oref: dict = {}
+                osess: list = []
+                opseq.do_session(ods, 7, "x", "mix", 2, oref, osess)
+                opseq.do_session(ods, 8, "root", "train", 2, oref, osess)
+                del ods
+                shutil.rmtree(dst)
+                shutil.move(str(other), str(dst))
+                new = Dataset(dst)
+                new.check(show_progressbar=False)
+                bad, _ = opseq.inspect(dst, new, oref, 2, fmt, hashes)
+                for prop, sym, msg in bad:
+                    out["bad"].append((sym, f"{desc}: another dataset moved "
+                                       f"into that place: {msg}", list(args)))
             if how == "copy":
                 orig = Dataset(src)
                 orig.check(show_progressbar=False)
@@ -336,6 +366,13 @@ def run(ctx):
            for how in ("copy", "move")
            for ob in ("absolute", "relative-parent", "relative-inside",
                       "relative-deep", "relative-dotdot")]
+    # places this process has read before: move away, write, move back;
+    # another dataset moved into the place; without / with two checksum
+    # algorithms (what a cache of parsed metadata could key on)
+    rel += [(f + v, n, how, ob) for f in fmts for v in ("/nohash", "/2hash", "")
+            for n in names[:2] for how in ("move-back", "move-replace", "copy")
+            for ob in ("absolute", "relative-parent")
+            if not (v == "" and how == "copy")]
     import importlib.util
     spec = importlib.util.find_spec("sedpack")
     cur = None
